@@ -48,7 +48,7 @@ CLAUSES = {
     "inv.missing_after": {"C03", "C16"},
     "inv.missing_after_ctor": {"C03"},
     "inv.on_unfinished_object": {"C03"},
-    "inv.unexpected_evaluation": {"C03"},
+    "inv.unexpected_evaluation": {"C03", "C16"},   # (C16: a phase that was not due - e.g. after a contract had failed)
     "inv.body_after_failed_before": {"C03"},
     "inv.evaluated_after_body_raise": {"C03", "C11"},
     "err.form_dispatch": {"C09"},
